@@ -6,11 +6,14 @@ import (
 	"bufio"
 	"encoding/json"
 	"fmt"
+	"github.com/nuts-foundation/nuts-node/network/transport/grpc"
+	"google.golang.org/protobuf/proto"
 	"math/rand"
 	"os"
 	"path/filepath"
 	"sort"
 	"strconv"
+	"strings"
 	"testing"
 
 	"github.com/nuts-foundation/nuts-node/crypto/hash"
@@ -546,7 +549,7 @@ func (g *vGen) runScenario(idx int, dir string) vVerdict {
 	g.freshNext = [3]int{0, 0, g.freshNext[2]}
 	withDid := idx%3 == 0
 	sc := vScenario{Name: fmt.Sprintf("s%d-%s", idx, name), Validity: 3, Conns: g.conns2(nNodes, withDid)}
-	sc.MaxMsg = []int{512 * 1024, 64 * 1024, 20 * 1024}[r.Intn(3)]
+	sc.MaxMsg = []int{512 * 1024, 64 * 1024, 48 * 1024}[r.Intn(3)]
 	for i := 0; i < nNodes; i++ {
 		sc.Nodes = append(sc.Nodes, g.nodeCfg(i, withDid, dags[i]))
 	}
@@ -718,6 +721,11 @@ func vReplay(t *testing.T, path string, outDir string, build func(s *vSim, kind 
 			}
 			s.authnCases(op.Case)
 		case "tx", "payload", "cipher":
+		case "chunk":
+			if s == nil {
+				s = vNewSim(t, out, 1)
+			}
+			s.chunkCase(op.MaxMsg, op.Runs)
 		case "scenario":
 			if s == nil {
 				t.Fatal("replay file has no universe header")
@@ -744,6 +752,57 @@ func vReplay(t *testing.T, path string, outDir string, build func(s *vSim, kind 
 	}
 }
 
+// chunkTransactionList directly: generated transaction-size lists, the REAL marshalled size of every resulting
+// TransactionList envelope (as sendTransactionList builds it) against the gRPC limit
+func vChunkCases(s *vSim) {
+	r := s.rnd
+	type run struct{ n, d, p int }
+	lists := [][]run{
+		{{2000, 60, 0}}, {{1700, 300, 0}}, {{1000, 644, 14}}, {{3000, 40, 1}}, {{30, 20000, 20000}}, {{1, 600000, 0}, {500, 100, 0}},
+		{{400, 100, 0}, {3, 200000, 1000}, {400, 100, 0}}, {{1, 10, 0}}, {},
+		{{500 + r.Intn(2500), 30 + r.Intn(300), r.Intn(3) * r.Intn(40)}, {r.Intn(50), 5000 + r.Intn(50000), r.Intn(2000)}, {r.Intn(2000), 50 + r.Intn(100), 0}},
+	}
+	for _, limit := range []int{512 * 1024, 64 * 1024, 20 * 1024} {
+		for _, l := range lists {
+			runs := [][3]int{}
+			for _, x := range l {
+				runs = append(runs, [3]int{x.n, x.d, x.p})
+			}
+			s.chunkCase(limit, runs)
+		}
+	}
+}
+
+func (s *vSim) chunkCase(limit int, runs [][3]int) {
+	old := grpc.MaxMessageSizeInBytes
+	defer func() { grpc.MaxMessageSizeInBytes = old }()
+	grpc.MaxMessageSizeInBytes = limit
+	var txs []*Transaction
+	for _, x := range runs {
+		for i := 0; i < x[0]; i++ {
+			t := &Transaction{Data: make([]byte, x[1])}
+			if x[2] > 0 {
+				t.Payload = make([]byte, x[2])
+			}
+			txs = append(txs, t)
+		}
+	}
+	chunks := chunkTransactionList(txs)
+	lens := make([]string, len(chunks))
+	var over []string
+	for i, c := range chunks {
+		lens[i] = strconv.Itoa(len(c))
+		env := &Envelope{Message: &Envelope_TransactionList{TransactionList: &TransactionList{
+			ConversationID: []byte("123e4567-e89b-12d3-a456-426614174000"), Transactions: c, TotalMessages: uint32(len(chunks)), MessageNumber: uint32(i + 1)}}}
+		// a single transaction that does not fit on its own can not be helped by chunking
+		if n := proto.Size(env); n > limit && len(c) > 1 {
+			over = append(over, fmt.Sprintf("%d/%d:%dtx=%dB", i+1, len(chunks), len(c), n))
+		}
+	}
+	s.out.emit(vJSON(map[string]interface{}{"op": "chunk", "maxmsg": limit, "runs": runs}), fmt.Sprintf("chunk lens=[%s] oversize=%d", strings.Join(lens, ","), len(over)))
+	fmt.Fprintln(s.out.oracle, vJSON(map[string]interface{}{"kind": "chunk", "op": s.out.nOps - 1, "maxmsg": limit, "runs": runs, "chunks": len(chunks), "oversize": over}))
+}
+
 func TestVerifC07(t *testing.T) {
 	vQuiet()
 	outDir := os.Getenv("VERIF_OUT")
@@ -767,6 +826,7 @@ func TestVerifC07(t *testing.T) {
 		tier = "thorough"
 	}
 	s.emitUniverse("c07", seed, tier)
+	vChunkCases(s)
 	g := &vGen{s: s, ly: ly, rnd: s.rnd}
 	n := vEnvInt("VERIF_SCENARIOS", 24)
 	failed := 0
